@@ -201,6 +201,7 @@ type exec struct {
 	// allocLT: the LIFETIME the scripted server grants in its Allocate success response (0 = the usual 3600 s)
 	allocLT    uint32
 	allocLTSet bool
+	scratch    *net.UDPAddr // the one address object the application re-uses for its writes
 	light    bool // long runs: no per-step trace/state bookkeeping
 }
 
@@ -832,10 +833,22 @@ func (x *exec) peer(name string) *net.UDPAddr {
 func (x *exec) startWrite(peer string) {
 	x.nw++
 	w := &wcall{id: x.nw, peer: peer, addr: x.peer(peer), payload: fmt.Sprintf("w%03d>%s", x.nw, peer), startedClosed: x.m.closed()}
+	idle := x.pendingWriters() == 0
 	x.writes[w.payload] = w
 	x.writers = append(x.writers, w)
+	// The application owns the address it passes: like many callers this one keeps a single net.UDPAddr and
+	// overwrites it before every WriteTo - whenever no earlier WriteTo is still using it (changing an argument
+	// under a call in progress would be the application's own data race).
+	arg := &net.UDPAddr{IP: append(net.IP(nil), w.addr.IP...), Port: w.addr.Port}
+	if idle {
+		if x.scratch == nil {
+			x.scratch = &net.UDPAddr{}
+		}
+		x.scratch.IP, x.scratch.Port = append(x.scratch.IP[:0], w.addr.IP...), w.addr.Port
+		arg = x.scratch
+	}
 	go func() {
-		n, err := x.conn.WriteTo([]byte(w.payload), w.addr)
+		n, err := x.conn.WriteTo([]byte(w.payload), arg)
 		x.mu.Lock()
 		w.n, w.err, w.done = n, err, true
 		x.mu.Unlock()
